@@ -6,6 +6,8 @@ use crate::{
 };
 use roxmltree::{Document, Node};
 
+const E57_NAMESPACE_URL: &str = "http://www.astm.org/COMMIT/E57/2010-e57-v1.0";
+
 /// Descriptor with metadata for a single point cloud.
 ///
 /// This struct does not contain any actual point data,
@@ -145,9 +147,18 @@ impl PointCloud {
             if !n.is_element() {
                 continue;
             }
-            let ns = n.lookup_prefix(n.tag_name().namespace().unwrap_or_default());
+            let ns_url = n.tag_name().namespace();
+            let ns = n.lookup_prefix(ns_url.unwrap_or_default());
             let tag = n.tag_name().name();
-            let name = RecordName::from_namespace_and_tag_name(ns, tag)?;
+            let name = if ns_url.is_none() || ns_url == Some(E57_NAMESPACE_URL) {
+                RecordName::from_namespace_and_tag_name(ns, tag)?
+            } else {
+                // Attributes from extension namespaces are never standard attributes, even if they use the same name
+                RecordName::Unknown {
+                    namespace: ns.unwrap_or_default().to_owned(),
+                    name: tag.to_owned(),
+                }
+            };
             let data_type = RecordDataType::from_node(&n)?;
             prototype.push(Record { name, data_type });
         }
